@@ -1734,6 +1734,15 @@ fn eval_while_body(
     Ok(())
 }
 
+/// Undo what `eval_for_in` pushed for the next iteration (the
+/// continuation, the next index and the iterated value), so an error
+/// in this iteration can be resumed.
+fn undo_for_in_pushes(env: &mut Env) {
+    env.pop_value();
+    env.pop_value();
+    env.current_frame_mut().exprs_to_eval.pop();
+}
+
 fn eval_for_in(
     env: &mut Env,
     expr_value_is_used: bool,
@@ -1763,7 +1772,10 @@ fn eval_for_in(
 
     let Value_::List { items, .. } = iteree_value.as_ref() else {
         return Err((
-            RestoreValues(vec![iteree_value.clone()]),
+            RestoreValues(vec![
+                Value::new(Value_::Int(iteree_idx)),
+                iteree_value.clone(),
+            ]),
             EvalError::Exception(ExceptionInfo {
                 position: iteree_pos.clone(),
                 message: format_type_error(
@@ -1820,8 +1832,12 @@ fn eval_for_in(
         LetDestination::Destructure(symbols) => match iteree_current_elem.as_ref() {
             Value_::Tuple { items, .. } => {
                 if items.len() != symbols.len() {
+                    undo_for_in_pushes(env);
                     return Err((
-                        RestoreValues(vec![iteree_current_elem.clone()]),
+                        RestoreValues(vec![
+                            Value::new(Value_::Int(iteree_idx)),
+                            iteree_value.clone(),
+                        ]),
                         EvalError::Exception(ExceptionInfo {
                             position: iteree_pos.clone(),
                             message: ErrorMessage(vec![Text(format!(
@@ -1842,8 +1858,12 @@ fn eval_for_in(
                 }
             }
             _ => {
+                undo_for_in_pushes(env);
                 return Err((
-                    RestoreValues(vec![iteree_current_elem.clone()]),
+                    RestoreValues(vec![
+                        Value::new(Value_::Int(iteree_idx)),
+                        iteree_value.clone(),
+                    ]),
                     EvalError::Exception(ExceptionInfo {
                         position: iteree_pos.clone(),
                         message: format_type_error(
